@@ -13,7 +13,9 @@ import (
 	"log/slog"
 	"os"
 	"reflect"
+	"strings"
 	"sync"
+	"time"
 
 	"github.com/anthdm/hollywood/actor"
 	"github.com/anthdm/hollywood/remote"
@@ -47,13 +49,17 @@ type Delivery struct {
 	Sender PID    `json:"sender"`
 }
 
+type Env struct {
+	TypeNames []string `json:"typeNames"`
+	Targets   []PID    `json:"targets"`
+	Senders   []PID    `json:"senders"`
+	Messages  []Msg    `json:"messages"`
+}
+
 type Case struct {
 	Mode      string     `json:"mode"`
 	Batch     []Elem     `json:"batch"`
-	TypeNames []string   `json:"typeNames"`
-	Targets   []PID      `json:"targets"`
-	Senders   []PID      `json:"senders"`
-	Messages  []Msg      `json:"messages"`
+	Envs      []Env      `json:"envs"` // hostile mode: the envelopes of one inbound stream
 	Delivered []Delivery `json:"delivered"`
 	Err       bool       `json:"err"`
 }
@@ -74,11 +80,23 @@ type Failure struct {
 
 var nilPID = PID{"nil", "nil"}
 
-func toPID(p PID) *actor.PID {
+// intern: equal PIDs are the same *actor.PID object (as they are when a program keeps a PID around and sends to it
+// repeatedly); otherwise every use gets its own object
+var interned = map[PID]*actor.PID{}
+
+func toPID(p PID, intern bool) *actor.PID {
 	if p == nilPID {
 		return nil
 	}
-	return actor.NewPID(p.A, p.I)
+	if !intern {
+		return actor.NewPID(p.A, p.I)
+	}
+	if x, ok := interned[p]; ok {
+		return x
+	}
+	x := actor.NewPID(p.A, p.I)
+	interned[p] = x
+	return x
 }
 
 func fromPID(p *actor.PID) PID {
@@ -161,6 +179,9 @@ func newRig(ids []string) *rig {
 	for _, id := range ids {
 		e.SpawnProc(&recProc{pid: actor.NewPID(e.Address(), id), mu: &r.mu, log: &r.log})
 	}
+	// a real stream writer: inbound messages may be addressed to stream/<address> like to any other process
+	rp := &recProc{mu: &r.mu, log: &r.log}
+	remote.VerifSpawnWriter(e, "127.0.0.1:1", rp.Send)
 	return r
 }
 
@@ -188,7 +209,7 @@ func reencode(env *remote.Envelope) (*remote.Envelope, error) {
 	return out, nil
 }
 
-func (r *rig) run(c *Case) Outcome {
+func (r *rig) run(c *Case, intern bool) Outcome {
 	var envs []*remote.Envelope
 	if c.Mode == "roundtrip" {
 		msgs := make([]remote.VerifMsg, len(c.Batch))
@@ -202,7 +223,7 @@ func (r *rig) run(c *Case) Outcome {
 			default:
 				m = "not a proto message"
 			}
-			msgs[i] = remote.VerifMsg{Target: toPID(el.Target), Sender: toPID(el.Sender), Msg: m}
+			msgs[i] = remote.VerifMsg{Target: toPID(el.Target, intern), Sender: toPID(el.Sender, intern), Msg: m}
 		}
 		sent, p := remote.VerifEncode(r.e, msgs)
 		if p != nil {
@@ -210,21 +231,23 @@ func (r *rig) run(c *Case) Outcome {
 		}
 		envs = sent
 	} else {
-		env := &remote.Envelope{TypeNames: c.TypeNames}
-		for _, t := range c.Targets {
-			env.Targets = append(env.Targets, toPID(t))
-		}
-		for _, s := range c.Senders {
-			env.Senders = append(env.Senders, toPID(s))
-		}
-		for _, m := range c.Messages {
-			tn := ""
-			if m.Tni >= 0 && int(m.Tni) < len(c.TypeNames) {
-				tn = c.TypeNames[m.Tni]
+		for _, ce := range c.Envs {
+			env := &remote.Envelope{TypeNames: ce.TypeNames}
+			for _, t := range ce.Targets {
+				env.Targets = append(env.Targets, toPID(t, false))
 			}
-			env.Messages = append(env.Messages, &remote.Message{Data: encodeData(tn, m.Data), TargetIndex: m.Ti, SenderIndex: m.Si, TypeNameIndex: m.Tni})
+			for _, s := range ce.Senders {
+				env.Senders = append(env.Senders, toPID(s, false))
+			}
+			for _, m := range ce.Messages {
+				tn := ""
+				if m.Tni >= 0 && int(m.Tni) < len(ce.TypeNames) {
+					tn = ce.TypeNames[m.Tni]
+				}
+				env.Messages = append(env.Messages, &remote.Message{Data: encodeData(tn, m.Data), TargetIndex: m.Ti, SenderIndex: m.Si, TypeNameIndex: m.Tni})
+			}
+			envs = append(envs, env)
 		}
-		envs = []*remote.Envelope{env}
 	}
 	var wire []*remote.Envelope
 	for _, env := range envs {
@@ -264,6 +287,7 @@ func same(c *Case, got Outcome) string {
 func main() {
 	in := flag.String("cases", "", "ndjson file of cases exported by TLC")
 	maxFail := flag.Int("max-failures", 20, "")
+	progress := flag.String("progress", "", "file that receives the index of the case being run (to attribute a death of the process)")
 	flag.Parse()
 	slog.SetDefault(slog.New(slog.NewTextHandler(io.Discard, nil)))
 	f, err := os.Open(*in)
@@ -294,7 +318,16 @@ func main() {
 			if c.Delivered == nil {
 				c.Delivered = []Delivery{}
 			}
-			got := r.run(&c)
+			if *progress != "" {
+				_ = os.WriteFile(*progress, []byte(fmt.Sprint(n)), 0o644)
+			}
+			got := r.run(&c, n%2 == 0)
+			for _, d := range got.Delivered {
+				if strings.HasPrefix(d.Target.I, "stream/") {
+					time.Sleep(2 * time.Millisecond) // the writer handles it in its own goroutine: a panic there kills the process
+					break
+				}
+			}
 			if what := same(&c, got); what != "" {
 				rep.NFail++
 				if len(rep.Failures) < *maxFail {
@@ -310,6 +343,7 @@ func main() {
 			break
 		}
 	}
+	time.Sleep(20 * time.Millisecond)
 	rep.Cases = n
 	rep.Distinct = n
 	json.NewEncoder(os.Stdout).Encode(rep)
